@@ -32,6 +32,7 @@ type ChanSpec struct {
 	Tagged    bool
 	Banner    []byte
 	Socks     bool // a socks:// channel (the server's built-in SOCKS5 proxy): no fixed target
+	Dead      bool // the channel's target does not listen (any more): every connection to it is refused by the target
 }
 
 // Options selects what Start builds.
@@ -63,6 +64,10 @@ type Options struct {
 	StrictVerify   bool              // do not default to insecure on carriers without a host name
 	NoClient       bool              // only start the server side
 	Tag            string            // makes socket names unique within one working directory
+	// ServerCfgEdit / ClientCfgEdit (optional) get the certificate configuration of the server endpoint / of the
+	// client command after everything above has been applied and may change it (no CA at all, CA from a file, ...)
+	ServerCfgEdit func(*cert.ServerConfig)
+	ClientCfgEdit func(*cert.ClientConfig)
 }
 
 // Pair is a running server+client.
@@ -164,6 +169,9 @@ func serverCfg(o *Options) cert.ServerConfig {
 		c.Certificate, c.PrivateKey = o.ServerCert.Cert, o.ServerCert.Key
 	}
 	c.CaCertificate = o.ServerCA
+	if o.ServerCfgEdit != nil {
+		o.ServerCfgEdit(&c)
+	}
 	return c
 }
 
@@ -225,6 +233,9 @@ func Start(o Options) (*Pair, error) {
 			return nil, err
 		}
 		t.Banner = cs.Banner
+		if cs.Dead {
+			t.Close() // the address stays in the server's channel table, nobody listens on it
+		}
 		p.Targets[cs.Name] = t
 		channels = append(channels, &server.NetworkChannel{AbstractChannel: server.AbstractChannel{
 			ProtoName: addr.ProtoName{Name: cs.Name}, Address: addr.MustParseAddress(t.URL())}})
@@ -405,6 +416,9 @@ func Start(o Options) (*Pair, error) {
 	ccfg.CaCertificate = o.ClientCA
 	if o.ClientCert != nil {
 		ccfg.Certificate, ccfg.PrivateKey = o.ClientCert.Cert, o.ClientCert.Key
+	}
+	if o.ClientCfgEdit != nil {
+		o.ClientCfgEdit(&ccfg)
 	}
 	var ups []upstream.Upstream
 	ups = append(ups, o.Before...)
